@@ -380,8 +380,16 @@ func TestVerifC13WellFormed(t *testing.T) {
 			}
 		}
 		var trailers []*conformancev1.Header
-		for _, k := range verifkit.SortedKeys(e.Meta) {
-			trailers = append(trailers, &conformancev1.Header{Name: k, Value: e.Meta[k]})
+		for ki, k := range verifkit.SortedKeys(e.Meta) {
+			// test cases spell custom trailer names in any letter case; what the server emits must be lower-case
+			name := k
+			switch (i + ki) % 3 {
+			case 1:
+				name = http.CanonicalHeaderKey(k)
+			case 2:
+				name = strings.ToUpper(k)
+			}
+			trailers = append(trailers, &conformancev1.Header{Name: name, Value: e.Meta[k]})
 		}
 		block := grpcWebStatusEndStream(ce, trailers)
 		tr := http.Header{}
